@@ -23,7 +23,7 @@ func (c06) Assumptions() []string {
 		"where the statements are silent (two Primaries, several unnamed) any member of S is accepted",
 	}
 }
-func (c06) NumCases(tier string) int      { return tierN(tier, 2500, 50000) }
+func (c06) NumCases(tier string) int      { return tierN(tier, 2500, 200000) }
 func (c06) MinNontrivial(tier string) int { return tierN(tier, 500, 5000) }
 
 func (p c06) Run(c *core.Ctx) {
